@@ -13,7 +13,7 @@ from vlib.symdt import SymDT
 from . import forceh, props
 
 DIRS = ["up", "down", "left", "right"]
-TEXTS = [None, "plain", "a<b & \"c\" 'd'>", "é – 中"]
+TEXTS = [None, "plain", "a<b & \"c\" 'd'>", "é – 中", "5 \u2126 at 3 \u212a \ufa19"]
 D0, D1 = 3.0, 88.0  # deliberately not 'nice': an explicit domain must be used as given
 TD0, TD1 = _dt.datetime(2021, 1, 25, 6, 0), _dt.datetime(2021, 3, 5, 18, 30)
 HOLE = re.compile(r"@H\d+@")
@@ -90,6 +90,9 @@ COLOR_SETS = {
 }
 
 
+_CONC_SHARED = {}
+
+
 def parse_ctime(s):
     if s.startswith("date:"):
         return _dt.date.fromisoformat(s[5:])
@@ -103,6 +106,12 @@ def build(cfg, val, sym, mode=None):
 
     data, opts, info = data_and_options(cfg, val, sym)
     mode = mode or cfg["mode"]
+    if cfg.get("share_opts") and E.ENGINE is not None:
+        # the caller hands the SAME options dict object (which contains no scale) to several timelines
+        pool = E.ENGINE.pm.setdefault("shared_opts", {})
+        opts = pool.setdefault(cfg["share_opts"], opts)
+    elif cfg.get("share_opts"):
+        opts = _CONC_SHARED.setdefault(cfg["share_opts"], opts)
     cls = TimelineSVG if mode == "svg" else TimelineTex
     tl = cls(data, opts) if opts is not None else cls(data)
     return tl, data, opts, info
@@ -178,11 +187,15 @@ def c11_configs(tier):
         ["1999-12-31T23:59:59.990", "2000-01-01T00:00:00.004"], ["1905-05-05T05:05:05", "2150-12-31T00:00:00"], ["date:2021-01-30", "date:2021-03-31"],
         ["time:06:30:00", "time:18:45:10.5"], ["2021-06-15T00:00:00.001", "2021-06-15T00:00:00.009"], ["date:2020-02-29"], ["2021-10-31T01:30:00", "2021-11-30T02:30:00", "2021-09-30T00:00:00"],
         ["2021-06-15T00:00:00.001", "2021-06-15T00:00:00.004"], ["1969-12-31T23:59:59.999", "1970-01-01T00:00:00.001"], ["2021-12-31T23:00:00", "2022-01-01T01:00:00"],
+        ["2020-10-15T00:00:00", "2021-03-31T09:00:00"], ["2019-06-01T00:00:00", "2021-01-30T12:00:00"], ["2004-05-05T00:00:00", "2024-02-29T00:00:00"], ["date:2020-08-31", "date:2021-01-31"],
+        ["2021-03-02T09:00:00", "2021-05-16T15:30:00"],
     ]
     for ti, ts in enumerate(T):
         for mode in ("svg", "tex"):
             for ov in ("none", "partial"):
-                if tier == "quick" and (ti + (mode == "tex") + (ov == "none")) % 2:
+                if tier == "quick" and ti < 13 and (ti + (mode == "tex") + (ov == "none")) % 2:
+                    continue
+                if tier == "quick" and ti >= 13 and (mode == "tex") != (ov == "none"):
                     continue
                 out.append(mk_cfg("c11-%s-time-derived-%d-%s" % (mode, ti, ov), mode=mode, scale="time-derived", n=len(ts), ctimes=ts, optvar=ov, direction=DIRS[ti % 4], texts=[ti % 4, 0, 1]))
     L = [[5.0], [3.0, 3.0], [88.0, 3.0], [1e-7, 2e-7], [0.0, 1e9, -1e9]]
@@ -240,6 +253,9 @@ def c10_configs(tier):
     P = tl_spec("P", scale="linear-derived", n=5, ctimes=[10.0, 10.5, 11.0, 11.5, 12.0], optvar="partial", labella={"maxPos": 150, "lineSpacing": 9, "nodeSpacing": 5}, direction="down", fixedw=[60, 60, 60, 60, 60], mode="tex")
     D_time = tl_spec("D", scale="time-derived", n=2, ctimes=["1990-01-01T00:00:00", "1999-03-01T00:00:00"], optvar="none")
     pairs = [("time", [A_time, B_time]), ("time2", [B_time, C_time]), ("time3", [A_time, D_time]), ("time4", [D_time, C_time]), ("lin", [A_lin, B_lin]), ("mixed", [A_lin, A_time]), ("crowd", [P, Q])]
+    E_time = tl_spec("E", scale="time-derived", n=2, ctimes=["2021-03-01T06:30:00", "2021-03-20T18:00:00"], optvar="partial", direction="down", share_opts="S1")
+    F_time = tl_spec("F", scale="time-derived", n=2, ctimes=["1999-01-05T00:00:00", "1999-11-25T12:00:00"], optvar="partial", direction="down", share_opts="S1")
+    pairs.append(("sameopts", [E_time, F_time]))
     hists2 = [["c0", "c1", "e0", "e1"], ["c0", "c1", "e1", "e0"], ["c0", "e0", "c1", "e0", "e1"], ["c0", "c1", "e0", "e0", "e1", "e1"], ["c1", "e1", "c0", "e0", "e1"]]
     out = []
     for pn, tls in pairs:
@@ -282,6 +298,9 @@ def c10(sink, cfg, val, sym):
             docs.setdefault(k, []).append(export(objs[k], tls[k]["mode"]))
     for k, lst in docs.items():
         instr.fresh_import()
+        if sym:
+            e.pm.pop("shared_opts", None)
+        _CONC_SHARED.clear()
         ref = export(build(tls[k], _vals_for(tls[k], val), sym)[0], tls[k]["mode"])
         for j, dct in enumerate(lst):
             same = norm(dct) == norm(ref)
@@ -374,7 +393,7 @@ def pic_configs(tier, prop):
         for sc in scales:
             for d in DIRS:
                 k += 1
-                out.append(mk_cfg("%s-%s-%s-%s-n2" % (prop, mode, sc, d), mode=mode, scale=sc, direction=d, n=2, texts=[k % 4, (k + 2) % 4], ticks=bool(k % 3)))
+                out.append(mk_cfg("%s-%s-%s-%s-n2" % (prop, mode, sc, d), mode=mode, scale=sc, direction=d, n=2, texts=[k % 5, (k + 2) % 5], ticks=bool(k % 3)))
     # layers and stubs: crowded labels with an upper bound, contract stub for vpsc
     for mode in ("svg", "tex"):
         for d in DIRS:
@@ -388,8 +407,12 @@ def pic_configs(tier, prop):
     for si, ts in enumerate(shapes):
         for mode in ("svg", "tex"):
             k += 1
-            out.append(mk_cfg("%s-%s-derived-%d" % (prop, mode, si), mode=mode, scale="time-derived", n=len(ts), ctimes=ts, direction=DIRS[k % 4], texts=[1, 2, 3], labella={"algorithm": "none"} if si == 0 else None))
+            out.append(mk_cfg("%s-%s-derived-%d" % (prop, mode, si), mode=mode, scale="time-derived", n=len(ts), ctimes=ts, direction=DIRS[k % 4], texts=[1, 4, 3], labella={"algorithm": "none"} if si == 0 else None))
     if prop == "c08":
+        # custom padding whose left+right differs from top+bottom by 3 or more (the solver width and the drawn box must agree)
+        for d in DIRS:
+            for mode in ("svg", "tex"):
+                out.append(mk_cfg("c08-padding-%s-%s" % (mode, d), mode=mode, scale="linear-explicit", direction=d, n=2, padding=dict(left=6, right=6, top=3, bottom=2), texts=[0, 1], weight=6))
         # two labels in the second layer (their stubs may have been pushed together in the first one)
         for d in ("down", "left"):
             out.append(mk_cfg("c08-layers4-simple-%s" % d, mode="svg", scale="linear-explicit", direction=d, n=4, labella={"maxPos": 130, "algorithm": "simple"}, vpsc="contract", texts=[0, 0, 0, 0], layergap=60, weight=80, shards=8))
